@@ -568,9 +568,13 @@ pub fn generate(rng: &mut Rng, thorough: bool) -> Workload {
     let k = rng.range(1, 4) as usize;
     let mut progs = Vec::new();
     let corp = corpus();
+    // one run in eight is built around a classic program and its near twin
+    let classic_twin_run = rng.chance(1, 8);
     let max_corpus_len: u64 = if thorough { 1 << 20 } else { 2500 };
     for i in 0..k {
-        let use_corpus = !corp.is_empty() && rng.chance(1, if thorough { 3 } else { 6 });
+        let use_corpus = !(classic_twin_run && i == 0)
+            && !corp.is_empty()
+            && rng.chance(1, if thorough { 3 } else { 6 });
         if use_corpus {
             let cands: Vec<&(String, String, u64)> =
                 corp.iter().filter(|c| c.2 <= max_corpus_len).collect();
@@ -597,7 +601,7 @@ pub fn generate(rng: &mut Rng, thorough: bool) -> Workload {
                 continue;
             }
         }
-        if rng.chance(1, 6) {
+        if !(classic_twin_run && i == 0) && rng.chance(1, 6) {
             let c = rng.below(CANARIES.len() as u64) as usize;
             progs.push(Prog {
                 name: format!("canary{}.clsp", c),
@@ -611,14 +615,17 @@ pub fn generate(rng: &mut Rng, thorough: bool) -> Workload {
             continue;
         }
         // dialect mix biased towards the optimising dialects, which do the most
-        let d = *rng.pick(&[0usize, 0, 1, 2, 3, 4, 4, 4, 4, 5, 5, 5, 6, 6, 6]);
+        let mut d = *rng.pick(&[0usize, 0, 1, 2, 3, 3, 4, 4, 4, 4, 5, 5, 5, 6, 6, 6]);
+        if classic_twin_run && i == 0 {
+            d = 0;
+        }
         let size = *rng.pick(&[15u32, 30, 50, 80]);
         let mut text = gen_prog::program(rng, d, size);
         let mut files: Vec<(String, String)> = Vec::new();
         let mut search: Vec<String> = vec![];
         // move some helper forms into include files: same program, but the preprocessor and
         // read_new_file take part, and every file read is one more interleaving point
-        if rng.chance(1, 3) {
+        if !(classic_twin_run && i == 0) && rng.chance(1, 3) {
             if let Some(gen_prog::Sx::List(items)) = gen_prog::parse(&text) {
                 let first_helper = if d == 0 { 2 } else { 3 };
                 let helpers: Vec<usize> = (first_helper..items.len().saturating_sub(1)).collect();
@@ -674,12 +681,24 @@ pub fn generate(rng: &mut Rng, thorough: bool) -> Workload {
     }
     // a near twin of one of the generated programs (same shape, one atom changed)
     let mut twin_pair: Option<(usize, usize)> = None;
-    if progs.len() < 4 && rng.chance(2, 5) {
+    if progs.len() < 4 && (classic_twin_run || rng.chance(2, 5)) {
         let cands: Vec<usize> = (0..progs.len())
             .filter(|i| !progs[*i].corpus && progs[*i].files.is_empty())
             .collect();
         if !cands.is_empty() {
-            let src = *rng.pick(&cands);
+            // classic programs first: their compiler keeps the most state of its own
+            let classic: Vec<usize> = cands
+                .iter()
+                .copied()
+                .filter(|i| !progs[*i].text.contains("(include *"))
+                .collect();
+            let src = if classic_twin_run && !progs[0].corpus {
+                0
+            } else if !classic.is_empty() && rng.chance(2, 3) {
+                *rng.pick(&classic)
+            } else {
+                *rng.pick(&cands)
+            };
             if let Some(t) = gen_prog::near_twin(&progs[src].text, rng) {
                 let mut twin = progs[src].clone();
                 twin.name = format!("twin{}.clsp", src);
@@ -755,10 +774,17 @@ pub fn generate(rng: &mut Rng, thorough: bool) -> Workload {
             );
         }
     }
+    let n_threads = threads.len();
     Workload {
         progs,
         threads,
-        preempt_points: rng.below(4) as u8,
+        // with several threads, mostly allow preemption inside compiles (overlapping
+        // compilations are what cross-thread state needs)
+        preempt_points: if n_threads >= 2 && rng.chance(4, 5) {
+            rng.range(1, 3) as u8
+        } else {
+            rng.below(4) as u8
+        },
         stay_weight: *rng.pick(&[1u8, 1, 2, 6]),
         work_limit: if thorough { 600_000_000 } else { 50_000_000 },
     }
